@@ -33,7 +33,8 @@ def main():
     with ProcessPoolExecutor(16) as ex:
         base = {p: r for _, p, r in ex.map(job, [("base", p, None) for p in props])}
     items = []
-    for kind in ("seeded", "neutral"):
+    kinds = [sys.argv[sys.argv.index("--kind") + 1]] if "--kind" in sys.argv else ["seeded", "neutral"]
+    for kind in kinds:
         d = os.path.join(V, kind)
         for n in sorted(os.listdir(d)) if os.path.isdir(d) else []:
             pf = os.path.join(d, n, "patch.diff")
@@ -85,7 +86,8 @@ def main():
                      "; ".join("%s[%s]" % (p, ",".join(r)) for p, r in viol) or "-", " ".join(anch) or "-",
                      (meta.get("change", "") or "")[:110].replace("|", "/")))
         print(lines[-1][:260])
-    open(os.path.join(V, "seeded", "MATRIX.md"), "w").write("\n".join(lines) + "\n")
+    if not only and len(kinds) == 2:
+        open(os.path.join(V, "seeded", "MATRIX.md"), "w").write("\n".join(lines) + "\n")
 
 if __name__ == "__main__":
     main()
